@@ -124,11 +124,11 @@ def build() -> Check:
         ck.ob("R1.record-before-outcome", cls_construct(ci), not bad,
               (f"{len(bad)}/{len(traces)} traces: {bad[0][0]}: {trace_sig(bad[0][1])}") if bad else f"{len(traces)} traces", cell=st)
     ck.floor("cells", n, 17)
-    ck.floor("traces", ntr, 400)
+    ck.floor("traces", ntr, 100)
 
     # R2 ---------------------------------------------------------------------------------
     cc = create_checkpoint_traces(pm)
-    ck.floor("create_checkpoint_traces", len(cc), 8)
+    ck.floor("create_checkpoint_traces", len(cc), 4)
     construct = fn_construct(pm.ckpt_fn)
     bad = []
     n_sync_put = 0
@@ -159,7 +159,7 @@ def build() -> Check:
                 bad.append(("asynchronous call enqueues a completion event", t))
             if waits:
                 bad.append(("asynchronous call blocks", t))
-    ck.floor("sync_put_traces", n_sync_put, 2)
+    ck.floor("sync_put_traces", n_sync_put, 1)
     ck.ob("R2.put-then-wait-same-event", construct, not bad, (bad[0][0] + ": " + trace_sig(bad[0][1])) if bad else f"{len(cc)} traces")
     # default of is_sync is True (call sites that omit it are synchronous)
     a = pm.ckpt_fn.node.args
@@ -250,7 +250,7 @@ def build() -> Check:
 
     # R5 wrapper -----------------------------------------------------------------------------
     wt = wrapper_traces(pm, faults=True)
-    ck.floor("wrapper_traces", len(wt), 100)
+    ck.floor("wrapper_traces", len(wt), 20)
     wrapper = prog.func("execution", "durable_execution.<locals>.wrapper")
     bad = []
     n_succ = 0
